@@ -277,6 +277,32 @@ func init() {
 		}
 		return fr.rxMatchSym(recv.(*regexp.Regexp), args[0])
 	}
+	// submatch queries: positions are not modelled symbolically; the input bytes are split into
+	// their feasible concrete values (the harness bounds the alphabet) and the host regexp runs
+	nativeHooks["*regexp.Regexp.FindStringSubmatchIndex"] = func(fr *frame, recv any, args []value) value {
+		s := fr.concretizeString(args[0])
+		m := recv.(*regexp.Regexp).FindStringSubmatchIndex(s)
+		if m == nil {
+			return []value(nil)
+		}
+		out := make([]value, len(m))
+		for k, x := range m {
+			out[k] = x
+		}
+		return out
+	}
+	nativeHooks["*regexp.Regexp.FindStringSubmatch"] = func(fr *frame, recv any, args []value) value {
+		s := fr.concretizeString(args[0])
+		m := recv.(*regexp.Regexp).FindStringSubmatch(s)
+		if m == nil {
+			return []value(nil)
+		}
+		out := make([]value, len(m))
+		for k, x := range m {
+			out[k] = x
+		}
+		return out
+	}
 	nativeHooks["*regexp.Regexp.Match"] = func(fr *frame, recv any, args []value) value {
 		s := mkStr(args[0].([]value))
 		if cs, ok := s.(string); ok {
@@ -284,4 +310,22 @@ func init() {
 		}
 		return fr.rxMatchSym(recv.(*regexp.Regexp), s)
 	}
+}
+
+// concretizeString splits a symbolic string into its feasible concrete values (one path each).
+func (fr *frame) concretizeString(v value) string {
+	if s, ok := v.(string); ok {
+		return s
+	}
+	ss := v.(*symstr)
+	b := make([]byte, len(ss.b))
+	for i, e := range ss.b {
+		switch e := e.(type) {
+		case uint8:
+			b[i] = e
+		case *sym:
+			b[i] = byte(fr.i.ex.concretize(e.t))
+		}
+	}
+	return string(b)
 }
